@@ -31,12 +31,12 @@ CHECKS = {
          'Trusted: Coq kernel + vm_compute, recorders, slack e bounding float32 projection rounding; torch.sort sorts, torch.median is the lower median (both checked through tokb on every recorded node).'),
 
  'C02': ('DESIGN.md §4 C02',
-         'Coq proof (invariant over the fit loop) of state coherence for every history/switch setting; ridge-system theorems (equivalent forms, uniqueness for PSD K, residual bound) + decision operators / snapshot table / loop skeleton (selectarith) and the least-squares solve path (solveops) re-translated from the source each run and proved equal to / instantiated on the models + vm_compute correspondence of the real RFM.fit with tagged stubs + residual check of real fits incl. mpmath closed-form Gram matrix',
+         'Coq proof (invariant over the fit loop) of state coherence for every history/switch setting; ridge-system theorems (equivalent forms, uniqueness for PSD K, residual bound) + decision operators / snapshot table / loop skeleton (selectarith) and the least-squares solve path (solveops) re-translated from the source each run and proved equal to / instantiated on the models + vm_compute correspondence of the real RFM.fit with tagged stubs + residual check of real fits incl. mpmath closed-form Gram matrix + the same for timed-out fits (SelectT)',
          'Theorem: for every score history, iteration budget, early-stop and best-restore setting the stored coefficients were solved with exactly the stored feature-matrix version and bandwidth (hypothesis: nothing is worse than the infinite sentinel; refuted-without-hypothesis example). '
          'The real loop is driven with scripted scores and tagged solve/AGOP stubs and compared with the model in Coq on binary64; real leaf fits (all CPU kernels, solvers, dtypes, adaptive bandwidth) are checked for (K+lambda I) alpha = Y with K of the stored state and, for n<=10, with the Gram matrix of the documented closed form.',
          'Trusted: Coq kernel + vm_compute (PrimFloat), stubs, LAPACK solve contract (residual of a returned solution is small), mpmath. The ridge identity itself is numeric (tolerance 200 n u scale).'),
  'C03': ('DESIGN.md §4 C03',
-         'Coq proof (loop invariant, strict-weak-order reasoning; generic score type with Q and binary64 instances) + improvement / early-stop operators, sentinels and direction-after-override re-translated from the source each run and proved equal to the model (selectarith) + exhaustive/random scripted histories through the real RFM.fit compared by vm_compute',
+         'Coq proof (loop invariant, strict-weak-order reasoning; generic score type with Q and binary64 instances) + improvement / early-stop operators, sentinels and direction-after-override re-translated from the source each run and proved equal to the model (selectarith) + exhaustive/random scripted histories through the real RFM.fit compared by vm_compute + Coq theorem that the loop\'s wall-clock test is equivalent to cutting the iteration budget (SelectT; scripted clock in the correspondence)',
          'Theorem for every finite score history, budget, direction, stop predicate: the returned coefficients/M/sqrtM/bandwidth all carry the index of the FIRST evaluated iterate that no evaluated iterate beats; with early stopping the evaluations end at the first iterate worse than the best so far by more than the multiplier; never crashes. '
          'All histories over a small alphabet (budgets 0-5) and random binary64 histories with ties are run through the real loop (tagged stubs) and compared bit-exactly with the model.',
          'Trusted: Coq kernel + vm_compute (PrimFloat primitives as the model of Python float comparison/multiplication), scripted stubs. NaN scores excluded as the property states.'),
@@ -109,7 +109,7 @@ CHECKS = {
          'partial: matrix root (SVD) is a contract (checked numerically), gradient values are C04; the 1e-8 diagonal ridge that the matrix-power routine adds in place is accepted with or without (the property does not ask for it); get_agop / get_agop_diag reductions are re-translated from the source each run (gradops). KNOWN FINDING: center_grads=True is batch-size dependent.'),
 
  'C19': ('DESIGN.md §4 C19',
-         'Coq proofs (Reals) of scale invariance of the Laplace-family closed forms, homogeneity of the lower median and of the closed-form L2 gradient, the bandwidth update as coded (= base x median of distances, homogeneous), and the composition theorem (a whole fit commutes with rescaling when its components are homogeneous; solver arbitrary) + _adapt_bandwidth and its call sites re-translated from the source each run (bwops, kernelops) + vm_compute order-statistic check of the stored bandwidth + rescaling differential',
+         'Coq proofs (Reals) of scale invariance of the Laplace-family closed forms, homogeneity of the lower median and of the closed-form L2 gradient, the bandwidth update as coded (= base x median of distances, homogeneous), and the composition theorem (a whole fit commutes with rescaling when its components are homogeneous; solver arbitrary) + _adapt_bandwidth and its call sites re-translated from the source each run (bwops, kernelops) + vm_compute order-statistic check of the stored bandwidth + rescaling differential + the composition instantiated for the product and Lpq kernels (ScaleInvPQ)',
          'Theorems for every dimension, transform, exponent, c > 0: K_{cL}(cx, cz) = K_L(x, z) for the L2, product and Lpq kernels; lower_median(c * l) = c * lower_median(l). '
          'After real adaptive fits (l2, l2_high_dim, l1, lpq; iters 0-4; early stop / best-restore) the stored bandwidth is compared with base x lower median of the pairwise kernel-norm distances of the transformed training points under the stored feature matrix (order-statistic claim checked in Coq), and predictions on inputs rescaled by 1e-3..1e3 are compared with the unscaled fit.',
          'partial: that a whole fit commutes with scaling uses the solver/median contracts; float effects (eps mask, 1e-30) are bounded by tolerances. Trusted: Coq kernel, vm_compute, real-number axioms, float64 distance recomputation.'),
